@@ -48,18 +48,38 @@ class SetMutator(CollectionAttrMutator):
         if index is MISSING or not replace:
             self.collection.add(item)
             return
-        # Replacing a member takes it out first, and adding the replacement can
-        # still fail (a key function that raises, an item without a key, a key
-        # clash under `enforce_item_equivalence`): leave the set as it was.
-        members = list(self.collection)
-        self.collection.discard(index)
+        # Adding the replacement can be refused (a key function that raises,
+        # an item without a key, a key clash under `enforce_item_equivalence`),
+        # so nothing is taken out before it is in -- unless it takes the very
+        # slot of the member it replaces.
+        key_of = getattr(self.collection, "key", None)
+        if key_of is None:  # a built-in set: members are their own keys
+            if item == index:
+                self.collection.discard(index)
+                self.collection.add(item)
+            else:
+                self.collection.add(item)
+                self.collection.discard(index)
+            return
         try:
+            old_key = key_of(self.collection[index])
+        except KeyError:
+            old_key = MISSING
+        same_slot = old_key is not MISSING and key_of(item) == old_key
+        if not same_slot:
             self.collection.add(item)
-        except BaseException:
-            self.collection.clear()
-            for member in members:
-                self.collection.add(member)
-            raise
+            if old_key is not MISSING:
+                self.collection.discard(old_key)  # by key: nothing left to go wrong
+        elif not getattr(self.collection, "enforce_item_equivalence", False):
+            self.collection.add(item)  # takes the old member's place
+        else:
+            old = self.collection[index]
+            self.collection.discard(index)
+            try:
+                self.collection.add(item)
+            except BaseException:
+                self.collection.add(old)
+                raise
 
     def add_item(self, item, *, value_or_index=MISSING, replace=True, attrs=None):  # pylint: disable=arguments-differ
         return self._mutate_collection(
